@@ -189,6 +189,7 @@ class XyeEngine(Engine):
             "fresh_process": rng.random() < 0.3,
             "layout": rng.choice(["plain", "plain", "slice", "strided"]),
             "units_as": rng.choice(["str", "Unit"]),
+            "unaligned": [nm for nm in names if rng.random() < 0.5] if rng.random() < 0.25 else [],
             "faults": {"mode": "none"},
         }
         f = rng.random()
@@ -248,6 +249,10 @@ class XyeEngine(Engine):
                 v = np.concatenate([v, [v[-1] + 1.0]])
             coords[nm] = layouts.embed(sc.array(dims=[dim], values=v, unit=c["unit"]), dim, how)
         da = sc.DataArray(data, coords=coords)
+        for nm in scn.get("unaligned") or []:
+            # what transform_coords / slicing leave behind: still a coordinate of the data
+            if nm in da.coords:
+                da.coords.set_aligned(nm, False)
         rf = scn.get("refusal") if scn["kind"] == "refusal" else None
         coord_arg = scn["coord_arg"]
         if rf == "no_variances":
